@@ -406,6 +406,23 @@ func checkFileFaults(c *mon.Case, f *fileFixture) {
 					c.Violation("C12|file|other-error", "attempt %d on %s: error %T %v is not the injected load error", attempt, f.Name, rerr, rerr)
 					break
 				}
+				if attempt == 3 {
+					// the block comes back; the same reader is asked once more, without repositioning it.
+					// It may go on failing, but whatever bytes it now delivers are the content from where
+					// it stood - and if it reaches the end without an error, all of it
+					st.ClearFaults()
+					var more []byte
+					var merr error
+					if !c.Guard("ReadAll after the block came back", func() { more, merr = io.ReadAll(rs) }) {
+						break
+					}
+					c.Count("reads_checked", 1)
+					c.Count("reads_after_block_came_back", 1)
+					rest := f.Content[min(int(at), len(f.Content)):]
+					if len(more) > len(rest) || !bytes.Equal(more, rest[:len(more)]) || (merr == nil && len(more) != len(rest)) {
+						c.Violation("C12|file|wrong-bytes", "%s: after three failed attempts at position %d (block at [%d,%d) unavailable) the block came back; the same reader then returned %d bytes, err %v, which is not the content from %d on (%d bytes, first difference at %d)", f.Name, at, sp.Start, sp.End, len(more), merr, at, len(rest), firstDiff(more, rest))
+					}
+				}
 			}
 		}
 	}
